@@ -535,8 +535,8 @@ class _Law(object):
             PW = X.create_Piecewise("temperature", nan_fallback=False)
             expr_fn(PW(a))
             return fns
-        if cls in ("Radiolytic", "RadiolyticAB"):
-            K = R.Radiolytic if cls == "Radiolytic" else R.mk_Radiolytic("alpha", "beta")
+        if cls == "Radiolytic" or c.get("dose_names"):
+            K = R.Radiolytic if cls == "Radiolytic" else R.mk_Radiolytic(*c["dose_names"])   # names in the given order
             expr_fn(inst(K), reaction=rxn)
             return fns
         polys = {"TPoly": PR.TPoly, "RTPoly": PR.RTPoly, "ShiftedTPoly": PR.ShiftedTPoly,
@@ -626,6 +626,8 @@ class _Law(object):
         mode in the unit the case names"""
         import numpy as np
         out = []
+        if len(results) != len(self.result_units):
+            raise ValueError("arity: %d results for %d components" % (len(results), len(self.result_units)))
         for r, ustr in zip(results, self.result_units):
             if self.units:
                 from chempy.units import to_unitless
@@ -649,9 +651,12 @@ def _snapshot(V):
         if isinstance(v, _E):
             out[k] = [type(v).__name__, "expr", repr(v)]
             continue
-        unit = str(getattr(v, "dimensionality", ""))
-        mag = getattr(v, "magnitude", v)
-        out[k] = [type(v).__name__, unit, [float(x) for x in np.atleast_1d(np.asarray(mag, dtype=float))]]
+        try:
+            unit = str(getattr(v, "dimensionality", ""))
+            mag = getattr(v, "magnitude", v)
+            out[k] = [type(v).__name__, unit, [float(x) for x in np.atleast_1d(np.asarray(mag, dtype=float))]]
+        except Exception:       # whatever the code under test left there: an observation, never a crash
+            out[k] = [type(v).__name__, "unprojectable", repr(v)[:200]]
     return out
 
 
@@ -765,6 +770,9 @@ def judge_laws(case, obs):
         for tag, o in sorted(obs["fits"].items()):
             if isinstance(o, dict):
                 bad.append(({"clause": "raises", "exc": o["raised"], "variant": tag}, {"observed": o, "expected": "parameters"}))
+                continue
+            if len(o) != len(exp["terms"]):
+                bad.append(({"clause": "arity", "variant": tag}, {"observed": o, "expected": len(exp["terms"])}))
                 continue
             for i in range(len(exp["terms"])):
                 lo, hi = _expected_range(case, i)
